@@ -3,8 +3,10 @@
    the implementation's handler invocations are compared with on every run. *)
 From LolModel Require Import Base Selectors.
 From LolSpec Require Import CssSem.
-From LolProofs Require Import Css.
-From Coq Require Import ZArith.
+From LolProofs Require Import Css CssPred.
+From Coq Require Import List.
+Import ListNotations.
+From Coq Require Import ZArith Lia.
 
 (* Element and selector names: comparing LocalNames (64-bit hash when representable, bytes otherwise) is exactly ASCII
    case-insensitive equality of the names, for ALL byte strings.  (False for the code before the leading-digit fix:
@@ -27,6 +29,25 @@ Theorem C04_nth_index_is_an_plus_b :
   forall a b i : Z, in_i32 (i - b) -> has_index a b i = an_plus_b a b i.
 Proof. exact has_index_correct. Qed.
 
+(* One selector compound against one element: the predicate built by Ast::add_selector (negations flattened into signed
+   conjuncts) and evaluated by the VM (tag-name expressions, then attribute expressions) decides exactly the CSS meaning of
+   the compound, for EVERY element (name, namespace, attributes incl. duplicates and case variants, sibling positions) and
+   every compound whose negations flatten exactly (compound_ok: :not() arguments are single simple selectors under one
+   negation, a single compound under a double negation; nth offsets within i32; class names non-empty). *)
+Theorem C04_predicate_decides_compound :
+  forall (e : elem) (c : compound), compound_ok e c -> vm_predicate e (compound_predicate c) = compound_matches e c.
+Proof. exact predicate_decides_compound. Qed.
+(* ... and the restriction is necessary: :not(a.x) on <b class="x"> (known finding NotCompoundArg) *)
+Example C04_not_with_compound_argument_refuted :
+  let e := mkElem (bs "b") Html [(bs "class", bs "x")] 1 1 in
+  let c := [SNot [[SType (bs "a"); SClass (bs "x")]]] in
+  vm_predicate e (compound_predicate c) = false /\ compound_matches e c = true.
+Proof. split; vm_compute; reflexivity. Qed.
+Example C04_compound_ok_example :
+  compound_ok (mkElem (bs "DIV") Html [(bs "Class", bs "a  b"); (bs "id", bs "k")] 3 2)
+              [SType (bs "div"); SClass (bs "b"); SNot [[SId (bs "z")]; [SNthChild 2 0]]; SNot [[SNot [[SAny; SAttrExists (bs "id")]]]]].
+Proof. repeat constructor; cbn; try discriminate; unfold in_i32; cbn; try lia. Qed.
+
 (* non-vacuity / edge *)
 Example C04_names_example : lname_eqb (lname_of_str (bs "DIV")) (lname_of_str (bs "div")) = true
                          /\ lname_eqb (lname_of_str (bs "1a")) (lname_of_str (bs "a")) = false
@@ -41,3 +62,4 @@ Print Assumptions C04_local_names_compare_ascii_case_insensitively.
 Print Assumptions C04_attribute_operators_are_css.
 Print Assumptions C04_an_plus_b_meaning.
 Print Assumptions C04_nth_index_is_an_plus_b.
+Print Assumptions C04_predicate_decides_compound.
